@@ -671,7 +671,17 @@ def q_spec(op, v, x):
     return None
 
 
-def gen_q_cases(rng, exe, reps, cases):
+def q_norm_text(t):
+    """'n/d' -> the canonical fraction text (value); anything else unchanged"""
+    try:
+        a, b = t.split("/")
+        a, b = int(a), int(b)
+        return q_str(q_norm(a, b)) if b != 0 else t
+    except ValueError:
+        return t
+
+
+def gen_q_cases(rng, exe, reps, cases, noreduce=False):
     for op, (n, dests, reads, sk, tag) in sorted(Q_OPS.items()):
         nzpos = {"nz0": 0, "nz1": 1, "nz2": 2}.get(tag)
         for idx in partitions(n, dests):
@@ -683,6 +693,28 @@ def gen_q_cases(rng, exe, reps, cases):
                     for k in range(n):
                         if k in reads and idx[k] == idx[nzpos]:
                             vals[k] = u
+                if noreduce:
+                    # NoReduce mode: non-integer values on every read position in two of three cases (n/d with d > 1 is what
+                    # distinguishes a/b from its reduced form), and non-reduced representations (common factor 1, 2, 6)
+                    if rep % 3 != 2:
+                        cv = {}
+                        for k in sorted(reads):
+                            if idx[k] not in cv:
+                                nn = rng.choice([2, -5, 22, -1, 7, rng.range(1, 60), vf.structured_int(rng, 2)])
+                                dd = rng.choice([3, 7, 12, 35, abs(vf.structured_int(rng, 2)) + 2])
+                                g = math.gcd(nn, dd)
+                                nn, dd = nn // g, dd // g
+                                if dd == 1:
+                                    nn, dd = 2 * nn + 1, 2
+                                cv[idx[k]] = (nn, dd)
+                            vals[k] = cv[idx[k]]
+                    f = [1, 2, 6][rep % 3]
+                    txt = ["%d/%d" % (v[0] * f, v[1] * f) if k in reads and v[0] != 0 else q_str(v) for k, v in enumerate(vals)]
+                    c = Case(exe, "QN", "-", op, n, dests, reads, idx, txt, [x] if sk else [],
+                             ("QField<Rational>::" + op if not op.startswith("op") else "Rational::" + op) + " (NoReduce mode)")
+                    c.spec = ("Q", op, x, vals)
+                    cases.append(c)
+                    continue
                 c = Case(exe, "Q", "-", op, n, dests, reads, idx, [q_str(v) for v in vals], [x] if sk else [], "QField<Rational>::" + op if not op.startswith("op") else "Rational::" + op)
                 c.spec = ("Q", op, x, vals)
                 cases.append(c)
@@ -956,6 +988,7 @@ def build_all(chk):
             chk.broke("implementation harness %s does not compile against /repo" % k, l)
         exes[k] = b
     exes["_rint_neg"] = rint_neg
+    exes["integer_nr"] = exes.get("integer")        # the same executable, run as a process of its own for the NoReduce cases
     return exes
 
 
@@ -1576,6 +1609,7 @@ POLY_OPS = {
     "ratrecon.f": (4, [0, 1], [2, 3], "pdegf", "nzall"), "powmod": (3, [0], [1, 2], "pexp", "nz2"),
     "inv": (2, [0], [1], None, "unit1"), "shift": (2, [0], [1], "pexp", ""),
 }
+POLY_KARA_OPS = ("mul", "mulin", "sqr", "karamul", "axpy", "axmy", "maxpy", "axpyin", "axmyin", "maxpyin")
 POLY_NAMES = {"ratreconcheck": "ndpm", "ratrecon.f": "ndpm", "divmod": "qrab", "gcd5": "duvpq", "divmodin": "qrb", "pdivmod": "qrab", "ratrecon": "ndpm", "powmod": "wpu"}
 
 
@@ -1689,6 +1723,12 @@ def gen_field_cases(rng, exes, quick, cases):
                         for j in range(n):
                             if j in reads and idx[j] == idx[k]:
                                 vals[j] = v
+                    if rep % 4 == 2 and op in POLY_KARA_OPS:
+                        # above KARA_THRESHOLD / SQR_THRESHOLD (50 coefficients, givpoly1kara.inl): mul / sqr take the Karatsuba
+                        # bodies only then -- generated on every run, for every partition
+                        for j in sorted(reads):
+                            dg = rng.range(52, 66)
+                            setpos(j, ",".join(str(rng.range(0, p - 1)) for _ in range(dg)) + "," + str(rng.range(1, p - 1)))
                     if tag == "nzall":
                         for j in sorted(reads):
                             if vals[j] == "z":
@@ -1698,7 +1738,7 @@ def gen_field_cases(rng, exes, quick, cases):
                         if idx[1] == idx[2]:
                             setpos(1, str(rng.range(1, p - 1)))
                         else:
-                            dq = rng.choice([0, 1, 2, 3, 5])
+                            dq = rng.choice([0, 1, 2, 3, 5]) if rep % 4 != 2 else rng.range(52, 60)      # (above KARA_THRESHOLD too)
                             setpos(2, ",".join(str(rng.range(0, p - 1)) for _ in range(dq)) + ("," if dq else "") + str(rng.range(1, p - 1)))
                             setpos(1, ",".join(str(rng.range(0, p - 1)) for _ in range(2 * dq)) + ("," if dq else "") + str(rng.range(1, p - 1)))
                     if op in ("div", "mod", "divmod", "divin", "modin", "divmodin", "pdivmod", "pmod") and rep % 4 == 2:
@@ -1737,13 +1777,13 @@ def _load_mod(name):
     return m
 
 
-DOM_FAMILY = {"Z": "Z", "Q": "Q", "RU": "RU", "RI": "RI", "RM": "RM", "poly": "POLY", "gfq32": "GFQ", "gfq64": "GFQ", "ext": "EXT", "ZR": "ZR", "CRT": "CRT"}
+DOM_FAMILY = {"Z": "Z", "Q": "Q", "QN": "QN", "RU": "RU", "RI": "RI", "RM": "RM", "poly": "POLY", "gfq32": "GFQ", "gfq64": "GFQ", "ext": "EXT", "ZR": "ZR", "CRT": "CRT"}
 
 
 def completeness(chk, cases):
     """every public three-address declaration of the headers must be tied to harness operations (harness/c15_forms.py)"""
     import subprocess
-    tables = {"RING": RING_OPS, "Z": Z_OPS, "Q": Q_OPS, "RU": RU_OPS, "RI": RI_OPS, "RM": RM_OPS, "POLY": POLY_OPS, "GFQ": RING_OPS,
+    tables = {"RING": RING_OPS, "Z": Z_OPS, "Q": Q_OPS, "QN": Q_OPS, "RU": RU_OPS, "RI": RI_OPS, "RM": RM_OPS, "POLY": POLY_OPS, "GFQ": RING_OPS,
               "EXT": RING_OPS, "ZR": ZR_OPS, "CRT": {"crt": 0, "crt.nf": 0}}
     # what this run drives: per family the operations, (operation, partition) pairs and cases
     fam_ops, fam_parts, fam_cases = {}, {}, {}
@@ -1867,6 +1907,8 @@ def main(tier, replay=None):
                 cs.spec = ("RU", cs.op, cs.param, cs.extra[0] if cs.extra else None)
             elif cs.dom == "poly":
                 cs.names = POLY_NAMES.get(cs.op)
+            elif cs.dom == "QN":
+                pass            # aliased against distinct only on replay
             elif cs.dom == "RM":
                 K_, mg_, p_ = [int(t) for t in str(cs.param).split(",")]
                 cs.spec = ("RM", cs.op, K_, mg_, p_, cs.extra[0] if cs.extra else None)
@@ -1907,6 +1949,7 @@ def main(tier, replay=None):
                         gen_ring_cases(rng, k, ring, p, 2 if quick else 8, cases, only=("mul_precomp_p", "mul_precomp_b", "mul_precomp_b_without_reduction"))
         gen_z_cases(rng, "integer", 6 if quick else 60, cases)
         gen_q_cases(rng, "integer", 6 if quick else 60, cases)
+        gen_q_cases(rng, "integer_nr", 6 if quick else 60, cases, noreduce=True)      # Rational::SetNoReduce(), own process
         for g in EXTRA_GENERATORS:
             g(rng, exes, quick, cases)
     cases_replayed.flag = bool(replay)
@@ -2022,6 +2065,8 @@ def main(tier, replay=None):
         bad = None
         vals = [str(v) for v in c.vals]
         avals = [str(v) for v in c.alias_vals()]
+        if c.dom == "QN":       # NoReduce mode: fractions are compared as values
+            Fv, Av, vals, avals = ([q_norm_text(t) for t in l] for l in (Fv, Av, vals, avals))
         exp = spec_expect(c)
         # (a) the distinct-objects call: specification and frame
         if exp is not None:
